@@ -435,7 +435,11 @@ impl InterfaceGenerator<'_> {
                         self.push_str(">");
                     }
                     TypeDefKind::Unknown => unreachable!(),
-                    TypeDefKind::FixedLengthList(..) => todo!(),
+                    TypeDefKind::FixedLengthList(t, size) => {
+                        self.push_str("list<");
+                        self.print_ty(t);
+                        self.push_str(&format!(", {size}>"));
+                    }
                     TypeDefKind::Map(key, value) => {
                         self.push_str("map<");
                         self.print_ty(key);
@@ -687,14 +691,12 @@ impl<'a> wit_bindgen_core::InterfaceGenerator<'a> for InterfaceGenerator<'a> {
         self.type_alias(id, name, &Type::Id(id), docs);
     }
 
-    fn type_future(&mut self, id: TypeId, name: &str, ty: &Option<Type>, docs: &Docs) {
-        _ = (id, name, ty, docs);
-        todo!()
+    fn type_future(&mut self, id: TypeId, name: &str, _ty: &Option<Type>, docs: &Docs) {
+        self.type_alias(id, name, &Type::Id(id), docs);
     }
 
-    fn type_stream(&mut self, id: TypeId, name: &str, ty: &Option<Type>, docs: &Docs) {
-        _ = (id, name, ty, docs);
-        todo!()
+    fn type_stream(&mut self, id: TypeId, name: &str, _ty: &Option<Type>, docs: &Docs) {
+        self.type_alias(id, name, &Type::Id(id), docs);
     }
 
     fn type_builtin(&mut self, id: TypeId, name: &str, ty: &Type, docs: &Docs) {
